@@ -137,6 +137,8 @@ PROGRAMS = {
     # ... the toggle made inside the non-resumable section must be in force after the checkpoint that ends the section
     "nores_rew_ckpt": {"msgs": [M("open_run"), M("checkpoint"), M("clear_checkpoint"), M("rewindable", a="F"), M("checkpoint"), M("null"), M("null"),
                                 M("rewindable", a="T"), M("null"), M("null"), M("close_run")]},
+    # a per-call subscription made by the plan: an implicit checkpoint (nothing before it is replayed), answered with the token
+    "tmpsub": {"msgs": [M("open_run"), M("checkpoint")] + _point + [M("null"), M("subscribe"), M("null")] + _point + [M("null"), M("close_run")]},
     "openonly": {"msgs": [M("open_run"), M("checkpoint"), M("sleep"), M("null")]},
     # pauses requested by the plan itself (Msg('pause')): resumable, deferred, and in a non-resumable section with the run left open
     "selfpause": {"msgs": [M("open_run"), M("checkpoint"), M("null"), M("pause", a="F"), M("null"), M("checkpoint"), M("pause", a="T"), M("null"),
@@ -542,7 +544,7 @@ def corpus_spec(tier):
     sweeps = []
     progs = ["simple", "two", "fin", "move", "mon", "multi", "defer", "norew", "paus", "err", "openonly", "mon_then", "nores_open", "nores_rew", "nores_rew_ckpt", "nores_then_ckpt", "unstage_only", "cfg_late", "multi_close", "amove", "aopen", "aselfpause_nores",
              "selfpause", "selfpause_nores", "selfpause_nores_fin", "selfdefer_nores", "norew_save",
-             "fly", "fly_prep", "fly_left", "fly_fin", "fly_twice", "fly_multi", "declare", "declare_mix", "badclean", "npaus"]
+             "fly", "fly_prep", "fly_left", "fly_fin", "fly_twice", "fly_multi", "declare", "declare_mix", "badclean", "npaus", "tmpsub"]
     kinds = REQ_KINDS
     if quick:
         sweeps.append(dict(plans=progs, kinds=["pause", "suspend", "abort"], decisions=["resume"], ri=True))
@@ -1314,7 +1316,9 @@ MC_JOBS = {
               ("declare", dict(max_req=1)),
               # a suspender with a dead band (signal value 2 neither trips nor releases); a device whose pause() refuses replay
               ("simple", dict(max_req=0, suspenders=["s3"], max_sus_ops=3)),
-              ("npaus", dict(max_req=1, req_kinds=["pause", "suspend", "abort"], noreplay=["npdet"]))],
+              ("npaus", dict(max_req=1, req_kinds=["pause", "suspend", "abort"], noreplay=["npdet"])),
+              # a subscription made by the plan (Msg('subscribe')): an implicit checkpoint in the middle of the run
+              ("tmpsub", dict(max_req=1, req_kinds=["pause", "suspend", "abort"]))],
     "thorough": [("simple", dict(max_req=2)), ("fin", dict(max_req=2)), ("two", dict(max_req=2, req_kinds=["pause", "suspend", "abort", "defer"])),
                  ("move", dict(max_req=1, max_faults=1, fault_kinds=["raise", "fail", "later", "nostatus"])),
                  ("mon", dict(max_req=1, max_updates=2)), ("multi", dict(max_req=1)), ("defer", dict(max_req=2, req_kinds=["defer", "pause", "abort"])),
@@ -1330,7 +1334,8 @@ MC_JOBS = {
                    ("fly_multi", dict(max_req=1, flyers=["fly1", "fly2"], max_updates=1)), ("fly_prep", dict(max_req=1, flyers=["fly1"])),
                    ("declare", dict(max_req=2, req_kinds=["pause", "suspend", "abort"])), ("declare_mix", dict(max_req=1)),
                    ("simple", dict(max_req=1, req_kinds=["pause", "abort"], suspenders=["s3"], max_sus_ops=3)),
-                   ("npaus", dict(max_req=2, req_kinds=["pause", "suspend", "abort"], noreplay=["npdet"]))],
+                   ("npaus", dict(max_req=2, req_kinds=["pause", "suspend", "abort"], noreplay=["npdet"])),
+                   ("tmpsub", dict(max_req=2, req_kinds=["pause", "suspend", "abort", "defer"]))],
 }
 
 
